@@ -198,10 +198,11 @@ def check(ctx, rep):
         ci = prog.cls(cname)
         hd = roles.input_callback(ctx, ci)
         ps, it = ctx.paths(hd, ci, depth=depth)
-        D = ("attr", ("param", "self"), "out")
+        OR_ = roles.op_roles(ctx, ci)
+        D = OR_.OUT
         nd = 0
         for p in ps:
-            decided = [e for e in p.evs("store") if e.d["target"] == ("attr", ("param", "self"), "done") and e.d["value"] == ("const", True)]
+            decided = [e for e in p.evs("store") if e.d["target"] == OR_.DONE and e.d["value"] == ("const", True)]
             if not decided:
                 continue
             nd += 1
